@@ -145,6 +145,28 @@ DataLen(mode, cnt) == CASE mode = "numeric" -> 10*(cnt \div 3) + <<0,4,7>>[(cnt 
                          [] mode = "byte" -> 8*cnt
                          [] mode \in {"kanji","hanzi"} -> 13*cnt
 
+(* ---------------- classification of content bytes and the automatic mode (C07) ---------------- *)
+IsNumB(b) == Len(b) >= 1 /\ \A i \in 1..Len(b) : b[i] >= 48 /\ b[i] <= 57
+IsAlnumB(b) == Len(b) >= 1 /\ \A i \in 1..Len(b) : b[i] \in AlnumSet
+\* a valid double-byte Shift JIS character inside 8140-9FFC / E040-EBBF: lead 81-9F / E0-EB, trail 40-7E / 80-FC
+KanjiPair(hi, lo) == LET code == hi * 256 + lo IN
+                     /\ ((code >= 33088 /\ code <= 40956) \/ (code >= 57408 /\ code <= 60351))
+                     /\ lo >= 64 /\ lo <= 252 /\ lo # 127
+IsKanjiB(b) == Len(b) >= 2 /\ Len(b) % 2 = 0 /\ \A k \in 1..(Len(b) \div 2) : KanjiPair(b[2*k-1], b[2*k])
+\* GB2312 two-byte characters A1A1-AAFE / B0A1-FAFE with second byte A1-FE (GB/T 18284 Hanzi mode)
+HanziPair(hi, lo) == LET code == hi * 256 + lo IN
+                     /\ ((code >= 41377 /\ code <= 43774) \/ (code >= 45217 /\ code <= 64254))
+                     /\ lo >= 161 /\ lo <= 254
+IsHanziB(b) == Len(b) >= 2 /\ Len(b) % 2 = 0 /\ \A k \in 1..(Len(b) \div 2) : HanziPair(b[2*k-1], b[2*k])
+\* class of the bytes of a part; hanziReq: mode hanzi was requested; nondefault: byte encoding is not ISO-8859-1
+ClassOfBytes(b, hanziReq, nondefault) ==
+  IF hanziReq /\ IsHanziB(b) THEN "hanzi"
+  ELSE IF IsNumB(b) THEN "num" ELSE IF IsAlnumB(b) THEN "alnum" ELSE IF IsKanjiB(b) THEN "kanji"
+  ELSE IF nondefault THEN "x8" ELSE "l1"
+
+\* content class -> first applicable mode of numeric, alphanumeric, kanji, byte (hanzi is never chosen automatically)
+AutoMode(cls) == CASE cls = "num" -> "numeric" [] cls = "alnum" -> "alphanumeric" [] cls = "kanji" -> "kanji" [] OTHER -> "byte"
+
 (* ---------------- format / version information ---------------- *)
 BitsToInt(bs) == FoldLeft(LAMBDA a, b : 2*a + b, 0, bs)     \* MSB first
 IntToBits(x, k) == [i \in 1..k |-> (x \div (2^(k-i))) % 2] \o <<>>
